@@ -73,4 +73,80 @@ Proof.
   apply (atfr_df T _ _ _ _ _ _ _ _ C S1 Htr Ea).
 Qed.
 
+(* ---------- remove_from_file ---------- *)
+Lemma DF_nonempty_top w x n : Core w -> DF w -> w_nodes w x = Some n -> n_files n <> [] -> exists m0, Top w x (PModel m0).
+Proof.
+  intros C D Hn Hf. assert (Ha : allocated w x) by (eexists; eauto). destruct (c_depth _ C _ Ha) as (h & Hd).
+  destruct (depth_top _ _ _ Hd) as (t & Ht). destruct t as [|m0|p].
+  - exfalso. apply Hf. eapply D; eauto.
+  - eauto.
+  - exfalso. eapply top_not_pelem; eauto.
+Qed.
+
+Lemma DFp_scan f ids : DFp (scan_loop f ids).
+Proof.
+  induction ids as [|s rest IH]; intros w r w' I D H; cbn [scan_loop] in H.
+  - winv H. auto.
+  - wstepn H sn Es; winv Es. destruct (negb (is_empty (n_files n))) eqn:Ee.
+    + wstepn H u Ew. apply set_node_wset in Ew as (_ & ->).
+      assert (Hf : n_files n <> []) by (destruct (n_files n); [discriminate | congruence]).
+      destruct (DF_nonempty_top _ _ _ (proj1 I) D Hn Hf) as (m0 & Ht).
+      assert (D1 : DF (wset w s (set_files n (set_remove f (n_files n))))) by
+        (apply (DF_set_files w s n _ m0); [exact Hn | reflexivity | reflexivity | exact Ht | exact D]).
+      assert (I1 : TreeInv (wset w s (set_files n (set_remove f (n_files n))))).
+      { eapply TreeInv_same_tree; [|exact I]. eapply st_wset; eauto. }
+      wstepn H r0 Er; [winv H|]; eapply IH; eauto.
+    + eapply IH; eauto.
+Qed.
+
+Lemma e_remove_from_file_dfp e f : DFp (e_remove_from_file T e f).
+Proof.
+  intros w r w' I D H. pose proof I as (C & O). unfold e_remove_from_file in H.
+  wrun_ro H ltac:(exact D).
+  match goal with Hq : model_of e w = Val (OK ?mm, w) |- _ =>
+    apply model_of_top in Hq as (_ & t & Ht & Hr); destruct t as [|m1|]; try discriminate end.
+  match goal with Hq : w_nodes w e = Some ?nx |- _ => rename nx into n; rename Hq into Hn end.
+  match goal with Hq : file_membership e w = Val (OK (_, ?cc), w) |- _ => rename cc into cur end.
+  wstepn H u Er.
+  2:{ destruct (is_empty (set_remove f cur)); [|winv Er].
+      revert Er. unfold parent_of. destruct (n_parent n) as [|mm|pi]; intros Er; wrun Er idtac; auto. }
+  match type of Er with _ = Val (_, ?wx) => rename wx into w1 end.
+  assert (Hstep : DF w1 /\ TreeInv w1 /\ (is_empty (set_remove f cur) = false -> w1 = w)).
+  { destruct (is_empty (set_remove f cur)); [|winv Er; auto].
+    match type of Er with ?mm _ = _ => assert (P : Pres mm /\ DFp mm) end.
+    { split.
+      - apply Pres_bind; [apply Pres_ro; ro_tac|]. intros [pi|]; [|apply Pres_ro; ro_tac].
+        apply Pres_bind; [apply Pres_try, Pres_e_remove | intros; apply Pres_ro; ro_tac].
+      - apply DFp_bind; [apply Pres_ro; ro_tac | apply DFp_ro; ro_tac |]. intros [pi|]; [|apply DFp_ro; ro_tac].
+        apply DFp_bind; [apply Pres_try, Pres_e_remove | apply DFp_try, DF_e_remove | intros; apply DFp_ro; ro_tac]. }
+    destruct P as (P1 & P2). split; [eapply P2; eauto|]. split; [eapply TreeInv_Pres; eauto | discriminate]. }
+  destruct Hstep as (D1 & I1 & Hsame).
+  wstepn H u2 Em.
+  match type of Em with _ = Val (_, ?wx) => rename wx into w2 end.
+  assert (I2 : TreeInv w2).
+  { eapply TreeInv_same_tree; [|exact I1]. eapply (stp_modify_node e); [|exact Em]. intros nx. split; reflexivity. }
+  assert (D2 : DF w2).
+  { destruct (is_empty (set_remove f cur)) eqn:Ee.
+    - assert (Hr0 : set_remove f cur = []) by (destruct (set_remove f cur); [auto|discriminate]).
+      rewrite Hr0 in Em. eapply (DF_pframe w1 w2 (proj1 I1)); [|exact D1].
+      refine ((_ : pfp (modify_node e (fun x => set_files x []))) _ _ _ Em).
+      apply frp_modify_node; auto with frp. intros nx. split; [reflexivity | right; reflexivity].
+    - rewrite (Hsame eq_refl) in *. apply modify_node_wset in Em as (n1 & Hn1 & _ & ->).
+      apply (DF_set_files w e n1 _ m1); [exact Hn1 | reflexivity | reflexivity | exact Ht | exact D1]. }
+  match type of H with ?mm _ = _ => assert (P : DFp mm) end.
+  { apply DFp_bind; [apply Pres_ro; ro_tac | apply DFp_ro; ro_tac |]. intros wq.
+    apply DFp_bind; [apply Pres_ro; ro_tac | apply DFp_ro; ro_tac |]. intros ids.
+    apply DFp_bind; [apply Pres_stp; apply (stp_scan_loop f ids) | apply (DFp_scan f ids) |].
+    intros to_delete. induction to_delete as [|d rest IHd]; [apply DFp_ro; ro_tac|].
+    apply DFp_bind; [apply Pres_ro; ro_tac | apply DFp_ro; ro_tac |]. intros dn.
+    apply DFp_bind; [apply Pres_ro; ro_tac | apply DFp_ro; ro_tac |]. intros p.
+    destruct p as [[pi|]|].
+    + apply DFp_bind; [| | intros; exact IHd].
+      * apply Pres_bind; [apply Pres_try, Pres_e_remove | intros; apply Pres_ro; ro_tac].
+      * apply DFp_bind; [apply Pres_try, Pres_e_remove | apply DFp_try, DF_e_remove | intros; apply DFp_ro; ro_tac].
+    + apply DFp_bind; [apply Pres_ro; ro_tac | apply DFp_ro; ro_tac | intros; exact IHd].
+    + apply DFp_bind; [apply Pres_ro; ro_tac | apply DFp_ro; ro_tac | intros; exact IHd]. }
+  eapply P; eauto.
+Qed.
+
 End DF6.
